@@ -20,6 +20,14 @@ Lemma kit_concat_lawful : kit_lawful kit_concat cc_pending. Proof. exact concat_
 Lemma kit_affine_lawful : kit_lawful kit_affine af_pending. Proof. exact affine_lawful. Qed.
 Lemma kit_flip_lawful : kit_lawful kit_flip fl_pending. Proof. exact flip_lawful. Qed.
 
+Lemma kit_minkey_lawful : kit_lawful kit_minkey no_pending. Proof. exact minkey_lawful. Qed.
+Lemma kit_maxkey_lawful : kit_lawful kit_maxkey no_pending. Proof. exact maxkey_lawful. Qed.
+Lemma kit_minf_lawful : kit_lawful kit_minf no_pending. Proof. exact minkey_lawful. Qed.
+Lemma kit_maxf_lawful : kit_lawful kit_maxf no_pending. Proof. exact maxkey_lawful. Qed.
+Lemma kit_minaddkey_lawful : kit_lawful kit_minaddkey kva_pending. Proof. exact kminaddkey_lawful. Qed.
+Lemma kit_maxaddkey_lawful : kit_lawful kit_maxaddkey kva_pending. Proof. exact kmaxaddkey_lawful. Qed.
+Lemma kit_sumcat_lawful : kit_lawful kit_sumcat no_pending. Proof. exact sumcat_lawful. Qed.
+
 (** Combinator of two lawful kits (whose [update] is the trait default) is lawful: hence every nesting *)
 Lemma kit_comb_lawful {T1 T2 M V1 V2} (a : kit T1 M V1) (b : kit T2 M V2) PA PB :
   k_update a = upd_of (k_merge a) -> k_update b = upd_of (k_merge b) ->
@@ -33,6 +41,17 @@ Proof. apply kit_comb_lawful; [reflexivity|reflexivity|exact kit_minadd_lawful|e
 Lemma kit_comb3_lawful :
   kit_lawful kit_comb3 (comb_pending (comb_pending va_pending va_pending) sa_pending).
 Proof. apply kit_comb_lawful; [reflexivity|reflexivity|exact kit_comb2_lawful|exact kit_sumadd_lawful]. Qed.
+
+Lemma kit_combcat_lawful : kit_lawful kit_combcat (comb_pending cc_pending cc_pending).
+Proof. apply kit_comb_lawful; [reflexivity|reflexivity|exact kit_concat_lawful|exact kit_concat_lawful]. Qed.
+Lemma kit_combunit_lawful :
+  kit_lawful kit_combunit (comb_pending no_pending (comb_pending no_pending no_pending)).
+Proof.
+  apply kit_comb_lawful; [reflexivity|reflexivity|exact kit_min_lawful|].
+  apply kit_comb_lawful; [reflexivity|reflexivity|exact kit_max_lawful|exact kit_sum_lawful].
+Qed.
+Lemma kit_combflip_lawful : kit_lawful kit_combflip (comb_pending fl_pending no_pending).
+Proof. apply kit_comb_lawful; [reflexivity|reflexivity|exact kit_flip_lawful|exact kit_sum_lawful]. Qed.
 
 Lemma build_correct {T M V} (merge : T -> T -> T) update (modify : T -> M -> T) push
   (obs : T -> V) vmerge act Pending :
